@@ -25,7 +25,7 @@
 
    Out of scope (absent from the syntax; other properties cover them): patches (SMP, JSON-6902),
    replacements, vars, components, `configurations:`/`crds:`, helm, external plugins, `immutable`, file /
-   env sources and binary (non UTF-8) values of generators, `buildMetadata`, custom openapi schemas, `kind: List`
+   loading itself (the content of env files and file sources comes with the entry), `buildMetadata`, custom openapi schemas, `kind: List`
    documents, documents that already carry internal.config.kubernetes.io
    build annotations.  Definitions only; proofs are in Res/PipelineProofs.v. *)
 From KV Require Export Res.BuildRefs.
@@ -38,8 +38,9 @@ Definition pairs := list (string * string).
 
 (* ---------- syntax ---------- *)
 
-(* one configMapGenerator / secretGenerator entry (literal sources only) *)
-Record pgen := mkPGen {
+(* one configMapGenerator / secretGenerator entry; the content of env files and file sources is supplied with the
+   entry (the loader itself is C05's / C06's concern) *)
+Record pgen := mkPGenX {
   pg_name : string;
   pg_ns : string;
   pg_behavior : string;               (* behavior: "" | create | replace | merge *)
@@ -48,8 +49,14 @@ Record pgen := mkPGen {
   pg_has_opts : bool;                 (* options: present *)
   pg_labels : pairs;                  (* options.labels (unique keys) *)
   pg_annos : pairs;                   (* options.annotations *)
-  pg_disable_hash : bool              (* options.disableNameSuffixHash *)
+  pg_disable_hash : bool;             (* options.disableNameSuffixHash *)
+  pg_envs : list string;              (* envs: the CONTENT of each env file, in order *)
+  pg_files : list (string * string)   (* files: (source spec "key=path" | "path", content of the file) *)
 }.
+
+(* an entry with literal sources only *)
+Definition mkPGen name ns beh lits ty ho labels annos dh : pgen :=
+  mkPGenX name ns beh lits ty ho labels annos dh [] [].
 
 (* generatorOptions: of a kustomization file *)
 Record pgopts := mkPGopts {
@@ -138,12 +145,20 @@ Section Pipeline.
 
   Definition str_node (v : string) : node := Scalar TStr SPlain v.
 
-  (* RNode.LoadMapIntoConfigMapData / LoadMapIntoSecretData: sorted keys *)
+  (* RNode.LoadMapIntoConfigMapData / LoadMapIntoSecretData: sorted keys; a ConfigMap value that is not valid
+     UTF-8 goes to binaryData, base64 encoded; every Secret value goes to data, base64 encoded *)
+  Definition map_field (name : string) (m : Generators.dict) : list (string * node) :=
+    match m with
+    | [] => []
+    | _ => [(name, Map (map (fun kv => (fst kv, str_node (snd kv))) m))]
+    end.
   Definition data_field (secret : bool) (m : Generators.dict) : list (string * node) :=
-    match m, secret with
-    | [], false => []          (* ConfigMap: the field is only created by the first entry *)
-    | _, _ => [("data", Map (map (fun kv => (fst kv, str_node (if secret then Hash.encode_base64 (snd kv) else snd kv))) m))]
-    end.                       (* Secret: LookupCreate(MappingNode, data) comes first: `data: {}` for no entry *)
+    if secret then
+      (* LookupCreate(MappingNode, data) comes first: `data: {}` for no entry *)
+      [("data", Map (map (fun kv => (fst kv, str_node (Hash.encode_base64 (snd kv)))) m))]
+    else
+      let '(d, b) := Generators.split_data m in
+      (map_field "data" d ++ map_field "binaryData" b)%list.
 
   Definition meta_map_field (name : string) (l : pairs) : list (string * node) :=
     match l with
@@ -151,12 +166,19 @@ Section Pipeline.
     | _ => [(name, Map (map (fun kv => (fst kv, str_node (snd kv))) (Labels.sort_pairs l)))]
     end.
 
-  (* generators.MakeConfigMap / MakeSecret for literal sources (makeBaseNode, type, data, copyLabelsAndAnnotations) *)
+  (* api/kv loader: env files first, then literals, then files (the key of a file source is given or the base name) *)
+  Definition gen_pairs (g : pgen) : res (list (string * string)) :=
+    do e <- Generators.concat_res
+              (map (fun c => Generators.env_lines true (Generators.scan_lines EmptyString c)) (pg_envs g));
+    do l <- mapM Generators.parse_literal (pg_literals g);
+    do f <- mapM (fun sc => do kp <- Generators.parse_file_source (fst sc); Ok (fst kp, snd sc)) (pg_files g);
+    Ok (e ++ l ++ f)%list.
+
+  (* generators.MakeConfigMap / MakeSecret (makeBaseNode, type, data, copyLabelsAndAnnotations) *)
   Definition gen_node (secret : bool) (g : pgen) : res node :=
     if String.eqb (pg_name g) "" then Err else
-    do kvs <- mapM Generators.parse_literal (pg_literals g);
+    do kvs <- gen_pairs g;
     do m <- Generators.validated_map kvs [];
-    if negb secret && negb (forallb (fun kv => Hash.valid_utf8 (snd kv)) m) then Err (* binaryData: out of scope *) else
     let labels := if pg_has_opts g then pg_labels g else [] in
     let annos := if pg_has_opts g then pg_annos g else [] in
     let meta := ([("name", str_node (pg_name g))] ++
@@ -181,10 +203,10 @@ Section Pipeline.
     match go with
     | None => g
     | Some o =>
-        mkPGen (pg_name g) (pg_ns g) (pg_behavior g) (pg_literals g) (pg_type g) true
-               (merge_pairs (if pg_has_opts g then pg_labels g else []) (go_labels o))
-               (merge_pairs (if pg_has_opts g then pg_annos g else []) (go_annos o))
-               ((pg_has_opts g && pg_disable_hash g) || go_disable_hash o)
+        mkPGenX (pg_name g) (pg_ns g) (pg_behavior g) (pg_literals g) (pg_type g) true
+                (merge_pairs (if pg_has_opts g then pg_labels g else []) (go_labels o))
+                (merge_pairs (if pg_has_opts g then pg_annos g else []) (go_annos o))
+                ((pg_has_opts g && pg_disable_hash g) || go_disable_hash o) (pg_envs g) (pg_files g)
     end.
 
   (* ----- resWrangler.appendReplaceOrMerge ----- *)
